@@ -406,4 +406,62 @@ def uploadStream (c : Crypto) (s : Stream) (length chunk : Nat) : Put :=
   let (d, s') := streamDigest c s
   ⟨d, length, streamBody chunk s'⟩
 
+/-! ## retried streamed uploads
+
+`_put_object_stream` is retried by `backoff` on `httpx.HTTPError`; the digest was computed once, before (`upload_stream`), and
+every attempt builds a new body iterator over the SAME stream object.  What an attempt sends therefore depends on where the
+previous attempt left the stream — on how many parts the transport had pulled when it failed, and on whether the
+`except` branch that saw the failure rewinds (generated: `Gen.s3PutRewindOnStatus`, `Gen.s3PutRewindOnTransport`,
+`Gen.s3PutRewindTo`). -/
+
+/-- what ended an attempt; both are `httpx.HTTPError`s, so both are retried -/
+inductive FaultClass where
+  | status      -- a response arrived and `raise_for_status` raised `HTTPStatusError`
+  | transport   -- no response: connect / read / write / protocol / timeout error (`httpx.TransportError`)
+  deriving DecidableEq, Repr
+
+/-- a failed attempt: its class and the number of body parts the transport had pulled from the iterator before it failed -/
+structure Fault where
+  cls : FaultClass
+  pulled : Nat
+
+/-- does the code rewind the stream after a failure of this class? (generated from the `try` statement) -/
+def putRewinds : FaultClass → Bool
+  | .status => Gen.s3PutRewindOnStatus
+  | .transport => Gen.s3PutRewindOnTransport
+
+/-- the parts the body iterator yields from the current position -/
+def streamParts (chunk : Nat) (s : Stream) : List Bytes := chunksFrom chunk (s.data.length + 1) (s.data.drop s.pos)
+
+/-- `k` reads of `chunk` bytes move the position by `k * chunk`, not beyond EOF (a position at / beyond EOF stays) -/
+def pull (chunk k : Nat) (s : Stream) : Stream :=
+  { s with pos := max s.pos (min s.data.length (s.pos + k * chunk)) }
+
+/-- the stream as a failed attempt leaves it, for a given rewinding policy -/
+def afterFaultWith (rew : FaultClass → Bool) (to chunk : Nat) (f : Fault) (s : Stream) : Stream :=
+  if rew f.cls then { s with pos := to } else pull chunk f.pulled s
+
+/-- one PUT attempt: what it declares, the body it offers (`put.body`: sent in full when the service reads all of it) and what
+the service had received when the attempt ended (`sent`) -/
+structure Attempt where
+  put : Put
+  sent : Bytes
+
+/-- all attempts of one `_put_object_stream` call: one per fault, then the one that is answered -/
+def attemptsWith (rew : FaultClass → Bool) (to : Nat) (d : Bytes) (length chunk : Nat) : List Fault → Stream → List Attempt
+  | [], s => [⟨⟨d, length, streamBody chunk s⟩, streamBody chunk s⟩]
+  | f :: fs, s =>
+    ⟨⟨d, length, streamBody chunk s⟩, ((streamParts chunk s).take f.pulled).flatten⟩
+      :: attemptsWith rew to d length chunk fs (afterFaultWith rew to chunk f s)
+
+/-- `upload_stream(name, stream, length, chunk_size)` whose first `faults.length` PUT attempts fail as described -/
+def uploadStreamRetriedWith (rew : FaultClass → Bool) (to : Nat) (c : Crypto) (s : Stream) (length chunk : Nat)
+    (faults : List Fault) : List Attempt :=
+  let (d, s') := streamDigest c s
+  attemptsWith rew to d length chunk faults s'
+
+/-- … with the policy of the code -/
+def uploadStreamRetried (c : Crypto) (s : Stream) (length chunk : Nat) (faults : List Fault) : List Attempt :=
+  uploadStreamRetriedWith putRewinds Gen.s3PutRewindTo c s length chunk faults
+
 end Replicat.SigV4
